@@ -27,7 +27,7 @@
 import RattrModel.Results
 import RattrModel.Resolve
 
-namespace Rattr.Project
+namespace Rattr.ResProject
 open Rattr Rattr.Results Rattr.Resolve
 
 /-- `call.symbol.target` as `find_call_target_and_ir` dispatches on it. `file` =
@@ -300,4 +300,4 @@ def generateProject (p : Proj) : GenOut :=
   | .outOfFuel => .outOfFuel
   | .never => .never
 
-end Rattr.Project
+end Rattr.ResProject
